@@ -204,7 +204,7 @@ def Mon.step (m : Mon) (w : World) (l : Label) (w' : World) : Mon × List Vio :=
        | none => match p with
          | .inst i => if (w.inst i).ev != e && E'.parent != some (w.inst i).ev then v "C09" "wrongParent" [] s!"event {e}" else []
          | _ => if E'.parent.isSome then v "C09" "parentFromOrdinaryCode" [] s!"event {e}" else []) ++
-      (if E'.parent == some e then v "C09" "selfParent" ["F8"] s!"event {e}" else []) ++
+      (if E'.parent == some e && E.parent != some e then v "C09" "selfParent" ["F8"] s!"event {e}" else []) ++
       (if (w'.ev e).children.contains e then v "C09" "selfChild" [] s!"event {e}" else []) ++
       (match p with
        | .inst i =>
